@@ -52,6 +52,8 @@ enum Op {
     HasChanged(usize),
     Changed(usize),
     WaitFor(usize, u32),
+    /// replay only: absolute target
+    WaitForAbs(usize, u32),
     Next(usize),
     ToStream(usize),
     Clone(usize),
@@ -220,9 +222,13 @@ async fn run_case(hdr: &Hdr, ops: &[Op], out: &mut Vec<String>) {
                 };
                 out.push(format!("changed {r} -> {o}"));
             }
-            Op::WaitFor(r, back) => {
+            Op::WaitFor(r, _) | Op::WaitForAbs(r, _) => {
                 let Some(Some(RH { kind: Kind::Plain(rx), .. })) = rcvs.get_mut(*r) else { continue };
-                let k = last.saturating_sub(*back);
+                let k = match op {
+                    Op::WaitFor(_, back) => last.saturating_sub(*back),
+                    Op::WaitForAbs(_, k) => (*k).min(last),
+                    _ => unreachable!(),
+                };
                 let o = match tokio::time::timeout(HOUR, rx.wait_for(|v| *v >= k)).await {
                     Ok(Ok(v)) => format!("v{}", *v),
                     Ok(Err(watch::WaitForError::Closed)) => "closed".into(),
@@ -376,6 +382,22 @@ async fn run_case(hdr: &Hdr, ops: &[Op], out: &mut Vec<String>) {
     settle().await;
     out.push("settle".into());
     out.push(q_line(&rcvs));
+    // "while the connection holds": every connection must still be able to carry a fresh channel half in both
+    // directions; a connection that is wedged at the chmux level (no error, but nothing goes through any more)
+    // makes the case void for this property
+    for c in 0..conns.len() {
+        for dir in [1i32, -1] {
+            let (_ptx, prx) = watch::channel::<u32, D>(0);
+            let from = if dir > 0 { c } else { c + 1 };
+            match ship(&mut conns, from, dir, Xfer::Rx(prx)).await {
+                Ok(_) => (),
+                Err(e) => {
+                    out.push(format!("abort connection-wedged conn={c} dir={dir} {}", e.replace("HANG ", "")));
+                    return;
+                }
+            }
+        }
+    }
 }
 
 fn exec_case(hdr: &Hdr, ops: &[Op]) -> Vec<String> {
@@ -536,7 +558,7 @@ fn gen_case(r: &mut Rng, i: u64, thorough: bool, st: &mut Stats) -> (Hdr, Vec<Op
             Op::Bau(_) => "op_borrow_and_update",
             Op::HasChanged(_) => "op_has_changed",
             Op::Changed(_) => "op_changed",
-            Op::WaitFor(..) => "op_wait_for",
+            Op::WaitFor(..) | Op::WaitForAbs(..) => "op_wait_for",
             Op::Next(_) => "op_stream_next",
             Op::ToStream(_) => "op_to_stream",
             Op::Clone(_) => "op_clone",
@@ -589,8 +611,7 @@ fn parse_cases(text: &str) -> Vec<(Hdr, Vec<Op>)> {
                     ("bau", 2) => ops.push(Op::Bau(num(w[1]))),
                     ("haschanged", 2) => ops.push(Op::HasChanged(num(w[1]))),
                     ("changed", 2) => ops.push(Op::Changed(num(w[1]))),
-                    // the target of wait_for is recomputed relative to the last value sent
-                    ("waitfor", 3) => ops.push(Op::WaitFor(num(w[1]), 0)),
+                    ("waitfor", 3) => ops.push(Op::WaitForAbs(num(w[1]), num(w[2]) as u32)),
                     ("next", 2) => ops.push(Op::Next(num(w[1]))),
                     ("tostream", 2) => ops.push(Op::ToStream(num(w[1]))),
                     ("clone", 2) => ops.push(Op::Clone(num(w[1]))),
